@@ -760,7 +760,7 @@ fn lab<T: RealNumber>(x: &[i64]) -> Vec<T> {
 fn hcv_t<T: RealNumber>(c: &mut Case) {
     let kind = *c.rng.pick(&[
         "random", "random", "random", "noisy-copy", "identical", "renamed-copy", "refinement", "coarsening", "product", "product",
-        "single-class-true", "single-class-pred", "single-class-both", "one-outlier",
+        "single-class-true", "single-class-pred", "single-class-both", "one-outlier", "near-independent",
     ]);
     let mut n = draw_n(c, 1);
     // class indices first, arbitrary label values afterwards
@@ -820,6 +820,38 @@ fn hcv_t<T: RealNumber>(c: &mut Case) {
             }
             c.rng.shuffle(&mut pairs);
             (pairs.iter().map(|p| p.0).collect(), pairs.iter().map(|p| p.1).collect())
+        }
+        "near-independent" => {
+            // mutual information tiny but not zero: the table [[m, m-1], [m+1, m]] (determinant 1), or an exact product
+            // table with a single item moved to the next column
+            if c.rng.bool(0.5) {
+                let m = c.rng.us(2, 50);
+                n = 4 * m;
+                let mut pairs: Vec<(usize, usize)> = Vec::new();
+                for (cell, cnt) in [((0, 0), m), ((0, 1), m - 1), ((1, 0), m + 1), ((1, 1), m)] {
+                    for _ in 0..cnt {
+                        pairs.push(cell);
+                    }
+                }
+                c.rng.shuffle(&mut pairs);
+                (pairs.iter().map(|p| p.0).collect(), pairs.iter().map(|p| p.1).collect())
+            } else {
+                let (ka, kb) = (c.rng.us(2, 4), c.rng.us(2, 4));
+                let r: Vec<usize> = (0..ka).map(|_| c.rng.us(1, 5)).collect();
+                let sv: Vec<usize> = (0..kb).map(|_| c.rng.us(1, 5)).collect();
+                let mut pairs: Vec<(usize, usize)> = Vec::new();
+                for (i, ri) in r.iter().enumerate() {
+                    for (j, sj) in sv.iter().enumerate() {
+                        for _ in 0..ri * sj {
+                            pairs.push((i, j));
+                        }
+                    }
+                }
+                pairs[0].1 = (pairs[0].1 + 1) % kb;
+                n = pairs.len();
+                c.rng.shuffle(&mut pairs);
+                (pairs.iter().map(|p| p.0).collect(), pairs.iter().map(|p| p.1).collect())
+            }
         }
         "single-class-true" => {
             let kb = c.rng.us(2, 8);
